@@ -8,7 +8,7 @@ coq/gen/Params_Storage.v; Obligations.v re-proves that the model uses exactly th
 Tie 2 (correspondence): the real LocalBackend.validatePath / sanitizePath, filepath.Clean /
 Rel, raft.ValidateManifestPath, edgesync.validateSyncPath / validateSpokeID / NamespacedPath on
 generated keys; the real Write / WriteReader / AppendReader stopped at every crash point
-(overlay rewrite of the CURRENT local.go inserting verifPoint calls between the syscalls),
+(overlay copy of the CURRENT local.go with a verifPoint call inserted before every file-system call of the writers),
 directory contents compared with the model inside Coq.
 """
 import json
@@ -30,30 +30,57 @@ THEOREMS = [("Arc.Storage.Props", t) for t in (
 TIE_NAME = ("C08 correspondence (storage.LocalBackend.validatePath/sanitizePath/Write/WriteReader/AppendReader, "
             "raft.ValidateManifestPath, edgesync.validateSyncPath/validateSpokeID/NamespacedPath vs Arc.Storage.Model) / Params_Storage")
 LOCAL_GO = "internal/storage/local.go"
+MAX_POINTS = 14          # crash targets tried per operation beyond its chunk count (the last one must complete)
 FULL_OBS = 1500          # keys for which sanitizePath / validators / NamespacedPath are observed as well
 
-# crash points: textual rewrites of the CURRENT local.go (anchor, replacement, min count)
-CRASH_REWRITES = [
-    ("\tdir := filepath.Dir(fullPath)\n", "\tverifPoint(\"pre-mkdir\")\n\tdir := filepath.Dir(fullPath)\n", 2),
-    # Write
-    ("\t// Write to temporary file with cryptographically random name", "\tverifPoint(\"w:after-mkdir\")\n\t// Write to temporary file with cryptographically random name", 1),
-    ("\ttmpPath := tmpFile.Name()\n", "\tverifPoint(\"w:after-create\")\n\ttmpPath := tmpFile.Name()\n", 1),
-    ("_, writeErr := tmpFile.Write(data)", "_, writeErr := verifChunkedWrite(tmpFile, data)", 1),
-    ("\tcloseErr := tmpFile.Close()\n", "\tverifPoint(\"w:before-close\")\n\tcloseErr := tmpFile.Close()\n\tverifPoint(\"w:after-close\")\n", 1),
-    ("\tmetrics.Get().IncStorageWriteBytes(int64(len(data)))\n", "\tverifPoint(\"w:after-rename\")\n\tmetrics.Get().IncStorageWriteBytes(int64(len(data)))\n", 1),
-    # WriteReader
-    ("\tstagingFile, err := os.OpenFile(stagingPath, os.O_WRONLY|os.O_CREATE|os.O_TRUNC, 0600)\n",
-     "\tverifPoint(\"wr:after-mkdir\")\n\tstagingFile, err := os.OpenFile(stagingPath, os.O_WRONLY|os.O_CREATE|os.O_TRUNC, 0600)\n", 1),
-    ("\twritten, copyErr := io.Copy(stagingFile, reader)\n", "\tverifPoint(\"wr:after-create\")\n\twritten, copyErr := io.Copy(stagingFile, reader)\n", 1),
-    ("\tcloseErr := stagingFile.Close()\n", "\tverifPoint(\"wr:before-close\")\n\tcloseErr := stagingFile.Close()\n\tverifPoint(\"wr:after-close\")\n", 1),
-    ("\t// Atomic promotion: rename staging", "\tverifPoint(\"wr:before-rename\")\n\t// Atomic promotion: rename staging", 1),
-    # AppendReader
-    ("\twritten, err := io.Copy(file, reader)\n", "\tverifPoint(\"ar:after-open\")\n\twritten, err := io.Copy(file, reader)\n", 1),
-    ("\tif written ", "\tverifPoint(\"ar:after-copy\")\n\tif written ", 1),
-    ("\t\tif err := os.Rename(stagingPath, fullPath); err != nil {\n", "\t\tverifPoint(\"ar:before-rename\")\n\t\tif err := os.Rename(stagingPath, fullPath); err != nil {\n", 1),
-    # common tail of WriteReader and AppendReader (after the rename, if any)
-    ("\tmetrics.Get().IncStorageWriteBytes(written)\n", "\tverifPoint(\"r:end\")\n\tmetrics.Get().IncStorageWriteBytes(written)\n", 2),
-]
+# ---------------------------------------------------------------------------------------
+# crash points: instrumentation of the CURRENT local.go, generated on every run.
+# Inside the bodies of Write / WriteReader / AppendReader a `verifPoint("<Fn>:<call>")` line
+# is inserted before every line that performs one of the file-system calls below, at function
+# entry and before the final `return nil`.  Anchoring on the calls themselves (not on the
+# surrounding text) keeps the instrumentation alive when branches are added or conditions
+# rewritten; it breaks (TieBroken) only when a writer no longer creates/opens or renames at all.
+# ---------------------------------------------------------------------------------------
+WRITERS = ("Write", "WriteReader", "AppendReader")
+CALLS = ("os.CreateTemp", "os.OpenFile", "os.Rename", "os.Remove", "io.Copy")
+
+
+def instrument_local_go():
+    src = open(os.path.join(vlib.REPO, LOCAL_GO)).read()
+    for fn in WRITERS:
+        m = re.search(r"^func \(b \*LocalBackend\) %s\(.*?\{\n" % fn, src, re.M)
+        if not m:
+            raise vlib.TieBroken("func (b *LocalBackend) %s not found in %s" % (fn, LOCAL_GO))
+        end = src.find("\nfunc ", m.end())
+        end = len(src) if end < 0 else end
+        body = src[m.end():end]
+        out, seen = ['\tverifPoint("%s:enter")' % fn], {}
+        for line in body.split("\n"):
+            st = line.strip()
+            indent = line[:len(line) - len(line.lstrip("\t"))]
+            call = None
+            if st and not st.startswith("//") and not st.startswith("defer ") and not st.startswith("}"):
+                for c in CALLS:
+                    if c + "(" in st:
+                        call = c.split(".")[1]
+                        break
+                if call is None and re.search(r"\b\w+\.Close\(\)", st):
+                    call = "Close"
+            if line == "\treturn nil":
+                call = "return"
+            if call:
+                seen[call] = seen.get(call, 0) + 1
+                out.append('%sverifPoint("%s:%s")' % (indent, fn, call))
+            out.append(line)
+        body2 = "\n".join(out)
+        if fn == "Write":
+            body2, n = re.subn(r"(\w+)\.Write\(data\)", r"verifChunkedWrite(\1, data)", body2)
+            if n != 1:
+                raise vlib.TieBroken("Write: the single `<file>.Write(data)` call was not found in %s (found %d)" % (LOCAL_GO, n))
+        if not seen.get("Rename") or not (seen.get("CreateTemp") or seen.get("OpenFile")) or not seen.get("return"):
+            raise vlib.TieBroken("%s in %s no longer opens/creates a staging file, renames it and returns nil (calls found: %s)" % (fn, LOCAL_GO, seen))
+        src = src[:m.end()] + body2 + src[end:]
+    return vlib.gen_file(os.path.join("C08", LOCAL_GO), src)
 
 
 def cby(b):
@@ -145,6 +172,22 @@ EDGE_KEYS = [b"", b"/", b"//", b".", b"..", b"...", b"....", b".\x00.", b".\x00.
              b".\x00./" * 12 + b"etc/passwd", b"a/./b", b"a/b/", b"a/b//", b"./a", b"a/..", b"a/.\x00./b", b"_", b".._", b"._.", b".\x00", b"\x00."]
 
 
+# keys aimed at the SIBLINGS of the root: 0x01 B 0x01 / 0x01 P 0x01 are replaced by the harness with the
+# base name of the root / of its parent directory (".\0." re-forms ".." after sanitising)
+B_, P_, DD = b"\x01B\x01", b"\x01P\x01", b".\x00."
+ROOT_AWARE_KEYS = [DD + b"/" + B_ + b"X/f", DD + b"/" + B_ + b"-backup/owned.parquet", DD + b"/" + B_ + b"2", DD + b"/" + B_ + b".old/x/y",
+                   DD + b"/" + B_ + b"/" + DD + b"/" + B_ + b"2/f", DD + b"/" + B_ + b"/f", DD + b"/" + B_, DD + b"/" + B_ + b"/",
+                   DD + b"/" + DD + b"/" + P_ + b"/" + B_ + b"X/f", DD + b"/" + DD + b"/" + P_ + b"X/" + B_ + b"/f", b"/" + DD + b"/" + B_ + b"_/f",
+                   DD + b"/" + B_ + b"\x00X/f", b"../" + B_ + b"X/f", B_ + b"X/f", DD + b"/" + B_[:-1]]
+
+
+def gen_root_aware_key(rng):
+    segs = [rng.choice([DD, DD, B_, B_ + b"X", B_ + b"-backup", B_ + b"2", B_ + b" ", P_, b"..", b".", b"f.parquet", b"m", b""]) for _ in range(rng.randint(2, 6))]
+    if rng.random() < 0.6:
+        segs[0] = DD
+    return b"/".join(segs)
+
+
 def key_nontrivial(k):
     try:
         k.decode("ascii")
@@ -178,8 +221,10 @@ def gen_crash_ops(rng, n):
         total = sum(len(c) for c in chunks)
         old_final = rng.choice([None, None, b"OLD-FINAL", b""])
         old_part = rng.choice([None, b"", b"PREFIX", b"stale-part-longer-than-the-data"]) if op != "write" or rng.random() < 0.3 else None
-        if op == "append_reader" and rng.random() < 0.85 and old_part is None:
+        if op == "append_reader" and rng.random() < 0.7 and old_part is None:
             old_part = b"PRE"
+        if op == "append_reader" and old_part is None and rng.random() < 0.7:
+            old_final = b"OLD-FINAL"
         clean = True if op == "write" else rng.random() < 0.7
         size = total if rng.random() < 0.7 else rng.choice([total + 1, max(0, total - 1), 0, 10])
         ops.append({"op": op, "old_final": old_final, "old_part": old_part, "chunks": chunks, "clean": clean, "size": size})
@@ -193,33 +238,21 @@ def crash_json(o, target):
 
 
 def model_k(c):
-    """Number of model steps completed when the real run stopped (crash point name + chunks
-    written so far), per the step lists of Model.write_steps / write_reader_steps /
-    append_reader_steps."""
-    nch = len(c["chunks"])
-    done = c["chunks_done"]
-    op, pt = c["op"], c["point"]
+    """Number of model steps (Model.write_steps / write_reader_steps / append_reader_steps)
+    completed when the real run stopped, from the points it passed: a file-system call has
+    completed when a LATER point was reached (the crash point itself sits before its call);
+    `chunk` points fire after each chunk has been written."""
     if not c["crashed"]:
         return 10 ** 6                          # all steps
-    if pt == "pre-mkdir":
+    done = [p.split(":")[-1] for p in c["passed"][:-1]]
+    chunks = c["chunks_done"]
+    renamed = 1 if "Rename" in done else 0
+    if c["op"] == "append_reader":
+        return chunks + renamed                 # opening the staging file is not a durable step
+    created = 1 if ("CreateTemp" in done or "OpenFile" in done) else 0
+    if not created:
         return 0
-    if pt in ("w:after-mkdir", "wr:after-mkdir"):
-        return 1
-    if pt in ("w:after-create", "wr:after-create"):
-        return 2
-    if pt == "chunk":
-        return (0 if op == "append_reader" else 2) + done
-    if pt in ("w:before-close", "w:after-close", "wr:before-close", "wr:after-close", "wr:before-rename"):
-        return 2 + nch
-    if pt in ("w:after-rename",):
-        return 3 + nch
-    if pt == "ar:after-open":
-        return 0
-    if pt in ("ar:after-copy", "ar:before-rename"):
-        return nch
-    if pt == "r:end":
-        return 10 ** 6
-    raise vlib.TieBroken("unknown crash point %r" % pt)
+    return 1 + created + chunks + renamed       # SMkdir :: SCreateTrunc :: appends ++ [SRename]
 
 
 def wcase_to_coq(c):
@@ -256,8 +289,12 @@ def run_impl(keys, libs, crash, tag):
     """keys: [(root_idx, bytes)], libs: [(a, b)], crash: [json dict] -> observations"""
     cases = {"keys": [{"root": r, "key": hx(k)} for r, k in keys], "lib": [{"a": hx(a), "b": hx(b)} for a, b in libs], "crash": crash}
     out = vlib.run_go_harness("C08", "./internal/storage/", "^TestVerifStorage$",
-                              {"internal/storage/zz_storage_verif_test.go": "harness/storage/storage_verif_test.go"},
-                              cases, rewrites={LOCAL_GO: CRASH_REWRITES}, tag=tag)
+                              {"internal/storage/zz_storage_verif_test.go": "harness/storage/storage_verif_test.go",
+                               LOCAL_GO: instrument_local_go()},
+                              cases, tag=tag)
+    if len(out["keys"]) != len(keys):
+        raise vlib.TieBroken("C08 harness returned a different number of results")
+    keys = [(r, bytes.fromhex(o["key"])) for (r, _), o in zip(keys, out["keys"])]      # placeholders resolved by the harness
     vals = []
     nval = min(len(keys), FULL_OBS)
     if keys:
@@ -280,7 +317,7 @@ def crash_batch(ops):
     """Every op at every crash point: targets 1..(#chunks + 8); the last target must complete."""
     batch, idx = [], []
     for i, o in enumerate(ops):
-        for t in range(1, len(o["chunks"]) + 9):
+        for t in range(1, len(o["chunks"]) + MAX_POINTS + 1):
             batch.append(crash_json(o, t))
             idx.append(i)
     return batch, idx
@@ -299,7 +336,7 @@ def crash_collect(ops, idx, out):
     missing = [i for i in range(len(ops)) if i not in seen_complete]
     if missing:
         raise vlib.TieBroken("operation %r still crashes at target %d: more crash points than expected" % (
-            ops[missing[0]]["op"], len(ops[missing[0]]["chunks"]) + 8))
+            ops[missing[0]]["op"], len(ops[missing[0]]["chunks"]) + MAX_POINTS))
     return results
 
 
@@ -372,10 +409,25 @@ def run(res, tier, seed):
         for r in range(3):
             if r == 0 or len(k) < 1000:
                 keys.append((r, k))
+    for k in ROOT_AWARE_KEYS:
+        for r in range(3):
+            keys.append((r, k))
     while len(keys) < nkeys:
-        keys.append((rng.choice([0, 0, 1, 2]), gen_key(rng)))
+        keys.append((rng.choice([0, 0, 1, 2]), gen_root_aware_key(rng) if rng.random() < 0.12 else gen_key(rng)))
     libs = [gen_lib(rng, None) for _ in range(nlib)]
     ops = gen_crash_ops(rng, nops)
+    # resumed append against a COMMITTED final file with no staging file (interrupted / short / exact reader):
+    # AppendReader must fail to open the staging file and leave the final path alone
+    for clean, size in ((False, 9), (True, 9), (True, 5), (False, 5)):
+        ops.insert(0, {"op": "append_reader", "old_final": b"COMMITTED", "old_part": None, "chunks": [b"ta", b"il!"], "clean": clean, "size": size})
+    # every branch of AppendReader's promotion test with a staging file present: exact, one short, one long,
+    # and a reader that fails after exactly appendSize bytes
+    for clean, size in ((True, 5), (True, 6), (True, 4), (False, 5), (True, 0)):
+        ops.insert(0, {"op": "append_reader", "old_final": None, "old_part": b"PREFIX", "chunks": [b"ta", b"il!"], "clean": clean, "size": size})
+    # WriteReader / Write replacing an existing file, reader failing after all bytes
+    ops.insert(0, {"op": "write_reader", "old_final": b"OLD", "old_part": b"stale", "chunks": [b"new", b"data"], "clean": False, "size": 7})
+    ops.insert(0, {"op": "write_reader", "old_final": b"OLD", "old_part": None, "chunks": [b"new", b"data"], "clean": True, "size": 7})
+    ops.insert(0, {"op": "write", "old_final": b"OLD", "old_part": None, "chunks": [b"new", b"", b"data"], "clean": True, "size": 7})
     # witness of C08_write_reader_ignores_size: clean EOF after 4 of 10 announced bytes
     ops.insert(0, {"op": "write_reader", "old_final": None, "old_part": None, "chunks": [b"\x01\x02\x03\x04"], "clean": True, "size": 10})
     batch, bidx = crash_batch(ops)
@@ -388,8 +440,8 @@ def run(res, tier, seed):
     res.stage("coq_eval", t2)
 
     nt_keys = {(c["root"], c["key"]) for c in kc if key_nontrivial(c["key"])}
-    nt_crash = {json.dumps([c[k] for k in ("op", "old_final", "old_part", "chunks", "clean", "size", "point", "chunks_done")]) for c in wc
-                if c["crashed"] and c["point"] not in ("pre-mkdir", "r:end")}
+    nt_crash = {json.dumps([c[k] for k in ("op", "old_final", "old_part", "chunks", "clean", "size", "passed")]) for c in wc
+                if c["crashed"] and not c["point"].endswith((":enter", ":return"))}
     res.cov["evaluations"] = len(kc) + len(lc) + len(wc)
     res.cov["distinct_nontrivial"] = len(nt_keys) + len(nt_crash)
     res.cov["rule"] = ("keys: fixed edge list x 3 roots (one is '/') + generated hierarchical / traversal / malformed / raw-byte keys; non-trivial = key contains "
@@ -462,7 +514,7 @@ def run(res, tier, seed):
             res.violation("model of filepath.Clean/Rel disagrees with the Go library", {"kind": "correspondence", "correspondence": TIE_NAME,
                           "lib_case": {"a_hex": hx(c["a"]), "b_hex": hx(c["b"])}, "disagreeing_cases": len(r["lagree"])}, no_input=True, suffix="corr")
     # the short-reader witness must behave as the model's necessity theorem says
-    w0 = [c for c in wc if c["op_index"] == 0 and not c["crashed"]]
+    w0 = [c for c in wc if c["op"] == "write_reader" and c["size"] == 10 and c["chunks"] == ["01020304"] and not c["crashed"]]
     res.cov["write_reader_short_promoted"] = bool(w0 and w0[0]["obs_final"] == "01020304")
 
 
